@@ -11,9 +11,10 @@ Lemma runo_bind A B (p : prog A) (f : A -> prog B) known : forall bs,
   | ONoFuel => ONoFuel
   end.
 Proof.
-  induction p as [a| | | |n k IH|k IH|k IH|h k IH]; intros bs; cbn [bindp runo]; auto.
+  induction p as [a| | | |n k IH|k IH|nd k IH|h k IH]; intros bs; cbn [bindp runo]; auto.
   - destruct (avail n bs); auto.
   - destruct bs; auto.
+  - destruct (known && negb (avail nd bs)); auto.
 Qed.
 
 Definition app_ev {A} (evs : list event) (r : out A * list event) : out A * list event :=
@@ -28,21 +29,23 @@ Lemma runt_bind A B (p : prog A) (f : A -> prog B) known : forall bs,
   | (ONoFuel, evs) => (ONoFuel, evs)
   end.
 Proof.
-  induction p as [a| | | |n k IH|k IH|k IH|h k IH]; intros bs; cbn [bindp runt]; auto.
+  induction p as [a| | | |n k IH|k IH|nd k IH|h k IH]; intros bs; cbn [bindp runt]; auto.
   - unfold app_ev. cbn. now destruct (runt (f a) known bs).
   - destruct (avail n bs); auto. rewrite IH. unfold cons_ev, app_ev.
     destruct (runt (k (firstn (N.to_nat n) bs)) known (skipn (N.to_nat n) bs)) as [[a r|r| |] evs]; reflexivity.
   - destruct bs as [|b r0]; auto. rewrite IH. unfold cons_ev, app_ev.
     destruct (runt (k b) known r0) as [[a r|r| |] evs]; reflexivity.
+  - destruct (known && negb (avail nd bs)); auto.
   - rewrite IH. unfold cons_ev, app_ev.
     destruct (runt k known bs) as [[a r|r| |] evs]; reflexivity.
 Qed.
 
 Lemma runt_fst A (p : prog A) known : forall bs, fst (runt p known bs) = runo p known bs.
 Proof.
-  induction p as [a| | | |n k IH|k IH|k IH|h k IH]; intros bs; cbn [runt runo]; auto.
+  induction p as [a| | | |n k IH|k IH|nd k IH|h k IH]; intros bs; cbn [runt runo]; auto.
   - destruct (avail n bs); auto. cbn. apply IH.
   - destruct bs; auto. cbn. apply IH.
+  - destruct (known && negb (avail nd bs)); auto.
   - cbn. apply IH.
 Qed.
 
@@ -56,7 +59,7 @@ Theorem run_runt (m : monitor) A (p : prog A) known : forall bs (s : mst m),
   | (s', false) => RErr s'
   end.
 Proof.
-  induction p as [a| | | |n k IH|k IH|k IH|h k IH]; intros bs s; cbn [run runt]; auto.
+  induction p as [a| | | |n k IH|k IH|nd k IH|h k IH]; intros bs s; cbn [run runt]; auto.
   - destruct (avail n bs); auto. unfold cons_ev.
     specialize (IH (firstn (N.to_nat n) bs) (skipn (N.to_nat n) bs)).
     destruct (runt (k (firstn (N.to_nat n) bs)) known (skipn (N.to_nat n) bs)) as [o evs].
@@ -65,6 +68,7 @@ Proof.
     specialize (IH b r0).
     destruct (runt (k b) known r0) as [o evs].
     cbn [fst snd feed]. destruct (mstep m (ERead 1) s) as [s' [|]]; auto.
+  - destruct (known && negb (avail nd bs)); auto.
   - unfold cons_ev. specialize (IH bs).
     destruct (runt k known bs) as [o evs].
     cbn [fst snd feed]. destruct (mstep m (EHook h) s) as [s' [|]]; auto.
@@ -101,7 +105,7 @@ Fixpoint sum_reads (evs : list event) : N :=
 
 Lemma skipn_length_N (n : N) (bs : list byte) :
   avail n bs = true -> N.of_nat (length bs) = n + N.of_nat (length (skipn (N.to_nat n) bs)).
-Proof. unfold avail. intros H. rewrite skipn_length. lia. Qed.
+Proof. rewrite avail_spec. intros H. rewrite skipn_length. lia. Qed.
 
 Theorem reads_account A (p : prog A) known : forall bs,
   match runt p known bs with
@@ -109,7 +113,7 @@ Theorem reads_account A (p : prog A) known : forall bs,
   | _ => True
   end.
 Proof.
-  induction p as [a| | | |n k IH|k IH|k IH|h k IH]; intros bs; cbn [runt]; auto;
+  induction p as [a| | | |n k IH|k IH|nd k IH|h k IH]; intros bs; cbn [runt]; auto;
     try (cbn [sum_reads]; lia).
   - destruct (avail n bs) eqn:Ha; [|cbn [sum_reads]; lia].
     specialize (IH (firstn (N.to_nat n) bs) (skipn (N.to_nat n) bs)).
@@ -119,7 +123,7 @@ Proof.
   - destruct bs as [|b r0]; [cbn [sum_reads]; lia|].
     specialize (IH b r0). unfold cons_ev.
     destruct (runt (k b) known r0) as [[a r|r| |] evs]; cbn [fst snd sum_reads length]; auto; lia.
-  - apply IH.
+  - destruct (known && negb (avail nd bs)); [cbn [sum_reads]; lia|apply IH].
   - specialize (IH bs). unfold cons_ev.
     destruct (runt k known bs) as [[a r|r| |] evs]; cbn [fst snd sum_reads]; auto.
 Qed.
@@ -131,7 +135,7 @@ Theorem runo_suffix A (p : prog A) known : forall bs,
   | _ => True
   end.
 Proof.
-  induction p as [a| | | |n k IH|k IH|k IH|h k IH]; intros bs; cbn [runo]; auto;
+  induction p as [a| | | |n k IH|k IH|nd k IH|h k IH]; intros bs; cbn [runo]; auto;
     try (exists []; reflexivity).
   - destruct (avail n bs); [|exists []; reflexivity].
     specialize (IH (firstn (N.to_nat n) bs) (skipn (N.to_nat n) bs)).
@@ -142,7 +146,7 @@ Proof.
     specialize (IH b r0).
     destruct (runo (k b) known r0) as [a r|r| |]; auto;
       destruct IH as [pre E]; exists (b :: pre); cbn; now rewrite <- E.
-  - apply IH.
+  - destruct (known && negb (avail nd bs)); [exists []; reflexivity|apply IH].
   - apply IH.
 Qed.
 
